@@ -177,7 +177,7 @@ def inject_kani(scratch: Scratch, files_meta: dict, file_names: list, thorough: 
         if not target.exists():
             raise LostAnchor(f"source file {meta['inject']} not found in /repo")
         with open(target, "a") as f:
-            f.write(f'\n#[cfg(kani)] #[path = "{kdir / fn}"] mod {meta["modname"]};\n')
+            f.write(f'\n#[cfg(kani)] #[path = "{kdir / fn}"] pub(crate) mod {meta["modname"]};\n')
         injected.append(f'{meta["inject"]} += mod {meta["modname"]} ({fn})')
     return injected
 
